@@ -157,6 +157,14 @@ M = {
     'c19-report-column-index': ('C19', [(SRC + 'excel.py', "suspicious_cells[f\"'{worksheet.title}'{cell.column_letter}{cell.row}\"]", "suspicious_cells[f\"'{worksheet.title}'{cell.column_letter}{index + 1 if cell.row > 40 else cell.row}\"]")],
                                 'rows above 40 are reported by the position within the row'),
     'c20-one-copy-edited': ('C20', [(ABS, "        if start_num < 1:\n            return '#NUM!'", "        if start_num < 0:\n            return '#NUM!'")], 'MID edited in the abstract class only'),
+    'c13-iferror-catches-recursionerror': ('C13', [(CTX, "        except (RecursionError, MemoryError):", "        except (MemoryError,):"),
+                                                   (ABS, "        except (RecursionError, MemoryError):", "        except (MemoryError,):")],
+                                           'IFERROR turns an exhausted stack into its fallback again (the repaired defect c2e1a59)'),
+    'c13-timedelta-compared-as-text': ('C13', [(CTX, "        if isinstance(left_operand, datetime.timedelta):", "        if False and isinstance(left_operand, datetime.timedelta):"),
+                                               (CTX, "        if isinstance(right_operand, datetime.timedelta):", "        if False and isinstance(right_operand, datetime.timedelta):")],
+                                       'a difference of dates is compared as its text again (the repaired defect 5e2fdee)'),
+    'c06-long-mantissa-unchecked': ('C06', [(SRC + 'tokens/regexp_tokens/__init__.py', "if len(self.value[2]) > 400 or len(self.value[5] or '') > 400 or", "if")],
+                                    'a mantissa of thousands of digits reaches int() again (the repaired defect 6f79fd5)'),
 }
 
 
